@@ -62,6 +62,7 @@ def strategy(tier):
             aligns = [a for a in aligns if a != "axisangle"] or ["none"]
         return st.fixed_dictionaries({
             "reaction": st.just(r),
+            "spin1_budget": st.just(2 if thorough else 1),
             "alignment": st.sampled_from(aligns),
             "bw": st.booleans(),
             "rotation": _rotation(),
@@ -98,7 +99,7 @@ def reaction_transitions(built):
 
 def run_case(desc) -> Result:  # noqa: C901, PLR0911, PLR0912
     rdesc = _demassless_spin(desc["reaction"])
-    config = dict(DEFAULT_CONFIG, alignment=desc["alignment"])
+    config = dict(DEFAULT_CONFIG, alignment=desc["alignment"], axisangle_spin1_budget=desc.get("spin1_budget", 2))
     prepared = prepare(rdesc, config)
     if prepared is None:
         return skip("no_transitions")
